@@ -13,6 +13,7 @@ pub mod c10;
 pub mod c11;
 pub mod c12;
 pub mod c13;
+pub mod c14;
 pub mod c15;
 
 use crate::evidence::Shard;
@@ -32,6 +33,7 @@ pub fn plan_for(id: &str) -> Option<Plan> {
         "C11" => c11::plan(),
         "C12" => c12::plan(),
         "C13" => c13::plan(),
+        "C14" => c14::plan(),
         "C15" => c15::plan(),
         _ => return None,
     })
@@ -51,6 +53,7 @@ pub fn shard_for(id: &str, ctx: &Ctx) -> Option<Shard> {
         "C11" => c11::shard(ctx),
         "C12" => c12::shard(ctx),
         "C13" => c13::shard(ctx),
+        "C14" => c14::shard(ctx),
         "C15" => c15::shard(ctx),
         _ => return None,
     })
